@@ -15,7 +15,7 @@ use std::sync::Arc;
 use std::time::Duration;
 use tokio::io::AsyncReadExt;
 
-pub const RULE: &str = "the harness knows the exact wire image of every frame an endpoint may emit (self-identifying path, per-message fill byte; the id is read off the wire) and captures the raw byte stream a scripted peer receives until end of connection; oracle (byte-exact, timing-free): the stream must equal F1||...||Fk||P with each F the complete image of a distinct issued message, P empty or a proper prefix of one more image, and nothing after P; generated scenarios: (concurrent) 2..32 concurrent writers on clones of one client with payload sizes straddling 8191/8192/8193/65535/65536/1 MiB, (write-timeout) blocking Client with set_write_timeout against a peer with a 4 KiB receive buffer that stalls around the timeout while an 8 MiB frame is written, then drains, then more calls, (abandoned) AsyncClient / WebSocketClient calls dropped by tokio::time::timeout or abort at a generated instant while the peer is stalled, then more calls, (server-stall) Server / AsyncServer with write_timeout whose client stops reading around the timeout while an 8 MiB response is written, then drains and sends more requests; non-trivial = a write was actually interrupted (a proper prefix was held or the caller got an error) or >=2 writers overlapped; distinct = case hash";
+pub const RULE: &str = "the harness knows the exact wire image of every frame an endpoint may emit (self-identifying path, per-message fill byte; the id is read off the wire) and captures the raw byte stream a scripted peer receives until end of connection; oracle (byte-exact, timing-free): the stream must equal F1||...||Fk||P with each F the complete image of a distinct issued message, P empty or a proper prefix of one more image, and nothing after P; generated scenarios: (concurrent) 2..32 concurrent writers on clones of one client with payload sizes straddling 8191/8192/8193/65535/65536/1 MiB, (write-timeout) blocking Client with set_write_timeout against a peer with a 4 KiB receive buffer that stalls around the timeout while an 8 MiB frame is written, then drains, then more calls, (abandoned) AsyncClient / WebSocketClient calls dropped by tokio::time::timeout or abort at a generated instant while the peer is stalled, then more calls, (server-stall) Server / AsyncServer with write_timeout whose client stops reading around the timeout while an 8 MiB response is written, then drains and sends more requests; (ws-server-writers) the same on the WebSocket server: inline and off-reader responses, handler-pushed notifies and broadcasts from another thread through one connection with a stalled peer; every WebSocket message must be exactly one frame and the byte image of one issued message; non-trivial = a write was actually interrupted (a proper prefix was held or the caller got an error) or >=2 writers overlapped; distinct = case hash";
 
 const BIG: usize = 8 << 20;
 
